@@ -340,6 +340,47 @@ def run(ctx):
     ctx.attempt(_r15)
     ctx.attempt(_r16)
     ctx.attempt(_r17)
+    ctx.attempt(_r18)
+
+
+_ZERO_DIM_TESTS = ("%s.shape == ()", "() == %s.shape", "%s.ndim == 0", "0 == %s.ndim", "np.ndim(%s) == 0", "0 == np.ndim(%s)",
+                   "np.isscalar(%s)", "np.shape(%s) == ()", "() == np.shape(%s)", "len(%s.shape) == 0", "0 == len(%s.shape)")
+
+
+def _r18(ctx):
+    """R-C13-18 ('two objects with identical index ... for scalars, arrays'): a Series object (one parameter set) comes back AS IT
+    IS - un-broadcast, together with the parameter - only for a 0-d parameter.  Every `return <p>, self._obj` of
+    `_broadcast_series` is guarded by a zero-dimension test of the parameter (`shape == ()`, `ndim == 0`, `np.isscalar`); a test
+    that also holds for arrays of one element (`size == 1`, `len(...) <= 1`) hands a 0-d result to a caller that asked for rows."""
+    prog = ctx.prog
+    ctx.rule("R-C13-18", floor=1, what="the un-broadcast return of _broadcast_series is taken for 0-d parameters only")
+    f = prog.func(MOD + ":Broadcaster._broadcast_series")
+    n = 0
+
+    def visit(stmts, guards):
+        nonlocal n
+        for st in stmts:
+            if isinstance(st, ast.If):
+                visit(st.body, guards + [st.test])
+                visit(st.orelse, guards)
+            elif isinstance(st, ast.Return) and isinstance(st.value, ast.Tuple) and len(st.value.elts) == 2 and \
+                    is_self_attr(st.value.elts[1], "_obj"):
+                n += 1
+                names = {x.id for g in guards for x in ast.walk(g) if isinstance(x, ast.Name)} | {"parameter"}
+                ok = any(norm_text(g) in {t % nm for t in _ZERO_DIM_TESTS for nm in names} for g in guards)
+                if ok:
+                    ctx.holds(f, st, "un-broadcast return guarded by a zero-dimension test (%s)" % " and ".join(norm_text(g) for g in guards))
+                else:
+                    ctx.violated(f, st, "Broadcaster._broadcast_series returns the object un-broadcast under `%s`, which is not a "
+                                 "zero-dimension test of the parameter: an array of one element gets a 0-d parameter and the bare "
+                                 "parameter set back instead of one row each" % (" and ".join(norm_text(g) for g in guards) or "no test"),
+                                 text="un-broadcast return of _broadcast_series")
+            elif isinstance(st, (ast.For, ast.While, ast.With, ast.Try)):
+                for fld in ("body", "orelse", "finalbody"):
+                    visit(getattr(st, fld, []) or [], guards)
+    visit(f.node.body, [])
+    if n == 0:
+        raise AnalysisError("_broadcast_series: the un-broadcast return `<p>, self._obj` was not found")
 
 
 def _r17(ctx):
@@ -1312,6 +1353,20 @@ def variants():
         f.body.insert(i + 1, parse_stmt("haigh.iloc[R_index.get_indexer_for([0])] = haigh_frame.iloc[R_index.get_indexer_for([0]), 0] * 0"))
         return True
     out.append(witness("fkm_goodman pairs the broadcast index frame with the dummy series by position", MS, goodman_positional, "R-C13-16"))
+
+    def one_element_is_scalar(tree):
+        f = find_func(tree, "Broadcaster._broadcast_series")
+        st = next(x for x in f.body if isinstance(x, ast.If))
+        st.test = ast.parse("prm.size == 1", mode="eval").body
+        return True
+    out.append(witness("arrays of one element take the scalar path of _broadcast_series", PATH, one_element_is_scalar, "R-C13-18"))
+
+    def ndim_test(tree):
+        f = find_func(tree, "Broadcaster._broadcast_series")
+        st = next(x for x in f.body if isinstance(x, ast.If))
+        st.test = ast.parse("prm.ndim == 0", mode="eval").body
+        return True
+    out.append(twin("scalar path of _broadcast_series chosen with prm.ndim == 0", PATH, ndim_test))
 
     def recode_in_place(tree):
         f = find_func(tree, "_IndexLevelCache.__init__")
